@@ -26,8 +26,8 @@ fn reach_set(refl: &RefLinks, u: &str, d: &Option<String>) -> BTreeSet<String> {
     out
 }
 
-fn check_state(rec: &mut Recorder, w: &mut World, st: &St, with_dom: bool, descr: &str) {
-    let doms: Vec<Option<String>> = if with_dom { vec![Some("t1".into()), Some("t2".into())] } else { vec![None] };
+fn check_state(rec: &mut Recorder, w: &mut World, st: &St, with_dom: bool, dm: &[String; 2], descr: &str) {
+    let doms: Vec<Option<String>> = if with_dom { vec![Some(dm[0].clone()), Some(dm[1].clone())] } else { vec![None] };
     let mut refl = RefLinks::default();
     for r in &st.g { let d = if with_dom { Some(r[2].clone()) } else { None }; refl.add(&r[0], &r[1], &d); }
     for d in &doms {
@@ -40,7 +40,9 @@ fn check_state(rec: &mut Recorder, w: &mut World, st: &St, with_dom: bool, descr
             // implicit permissions = rules held by the user or those roles
             let ip = rec.exec(w, &format!("e.iperms\t{}\t{}", u, df));
             let mut holders: BTreeSet<String> = reach_set(&refl, u, d); holders.insert(u.to_string());
-            let mut wantp: Vec<Vec<String>> = st.p.iter().filter(|r| holders.contains(&r[0]) && (!with_dom || Some(r[1].clone()) == *d)).cloned().collect();
+            // (the domain is matched the way every filtered read of the crate matches a value: the empty string stands for
+            //  "any value", so for the tenant named "" the rules of the holders in every tenant are listed)
+            let mut wantp: Vec<Vec<String>> = st.p.iter().filter(|r| holders.contains(&r[0]) && (!with_dom || d.as_deref() == Some("") || Some(r[1].clone()) == *d)).cloned().collect();
             wantp.sort_by_key(|r| enc_list(r)); wantp.dedup();
             let mut gotp = dec_lists(&ip); gotp.sort_by_key(|r| enc_list(r)); gotp.dedup();
             if gotp != wantp { rec.fail("implicit-permissions-wrong", format!("{}: implicit permissions of {} in {:?} = {} but the rules held by it or its roles are {:?}", descr, u, d, ip, wantp)); }
@@ -101,7 +103,12 @@ pub fn run(rec: &mut Recorder, w: &mut World, tier: &str, seed: u64) {
             let mut st = St { p: vec![], g: vec![] };
             let mut descr = vec![];
             let len = 3 + rng.below(if tier == "thorough" { 40 } else { 22 });
-            let dom = |rng: &mut Rng| rng.pick(&["t1", "t2"]).to_string();
+            // the two tenants: usually t1 / t2; every fourth history one of them is the empty string, every eighth the name
+            // the role manager uses internally for "no domain"
+            let dm: [String; 2] = if hi % 4 == 3 { ["".to_string(), "t2".to_string()] } else if hi % 8 == 5 { ["t1".to_string(), "DEFAULT".to_string()] } else { ["t1".to_string(), "t2".to_string()] };
+            if with_dom { rec.count(&format!("tenants:{:?}", dm)); }
+            let dm2 = dm.clone();
+            let dom = move |rng: &mut Rng| rng.pick(&dm2[..]).to_string();
             for step in 0..len {
                 let pr = |rng: &mut Rng| { let mut r = vec![rng.pick(&NAMES).to_string()]; if with_dom { r.push(dom(rng)); } r.push(rng.pick(&OBJS).to_string()); r.push(rng.pick(&ACTS).to_string()); r };
                 let gr = |rng: &mut Rng| { let mut r = vec![rng.pick(&NAMES).to_string(), rng.pick(&NAMES).to_string()]; if with_dom { r.push(dom(rng)); } r };
@@ -136,18 +143,18 @@ pub fn run(rec: &mut Recorder, w: &mut World, tier: &str, seed: u64) {
                 match &op {
                     MOp::DelUser(n) => {
                         if st.g.iter().any(|r| r[0] == *n) || st.p.iter().any(|r| r[0] == *n) { rec.fail("delete-user-left-rules", format!("{} -> {}: a rule still names {} in the subject position: p {:?} g {:?}", descr.join(" ; "), out, n, st.p, st.g)); }
-                        for d in if with_dom { vec![Some("t1".to_string()), Some("t2".to_string())] } else { vec![None] } {
+                        for d in if with_dom { vec![Some(dm[0].clone()), Some(dm[1].clone())] } else { vec![None] } {
                             let r = rec.exec(w, &format!("e.roles\t{}\t{}", n, dom_f(&d)));
                             if r != "-" { rec.fail("delete-user-left-links", format!("{}: {} still has roles {} in {:?}", descr.join(" ; "), n, r, d)); }
                         }
                         let mut reqs = vec![];
-                        for o in OBJS { for a in ACTS { if with_dom { for t in ["t1", "t2"] { reqs.push(sv(&[n, t, o, a])); } } else { reqs.push(sv(&[n, o, a])); } } }
+                        for o in OBJS { for a in ACTS { if with_dom { for t in dm.iter() { reqs.push(sv(&[n, t, o, a])); } } else { reqs.push(sv(&[n, o, a])); } } }
                         let dec = rec.exec(w, &format!("e.enfs\t{}", reqs_field(&reqs)));
                         if dec.contains('t') { rec.fail("delete-user-left-grants", format!("{}: {} is still granted something: {}", descr.join(" ; "), n, dec)); }
                     }
                     MOp::DelRole(n) => {
                         if st.g.iter().any(|r| r[1] == *n) || st.p.iter().any(|r| r[0] == *n) { rec.fail("delete-role-left-rules", format!("{} -> {}: a rule still names role {}: p {:?} g {:?}", descr.join(" ; "), out, n, st.p, st.g)); }
-                        for d in if with_dom { vec![Some("t1".to_string()), Some("t2".to_string())] } else { vec![None] } {
+                        for d in if with_dom { vec![Some(dm[0].clone()), Some(dm[1].clone())] } else { vec![None] } {
                             let r = rec.exec(w, &format!("e.users\t{}\t{}", n, dom_f(&d)));
                             if r != "-" { rec.fail("delete-role-left-links", format!("{}: role {} still has users {} in {:?}", descr.join(" ; "), n, r, d)); }
                         }
@@ -157,7 +164,7 @@ pub fn run(rec: &mut Recorder, w: &mut World, tier: &str, seed: u64) {
                     }
                     _ => {}
                 }
-                if step % 3 == 2 || step + 1 == len { check_state(rec, w, &st, with_dom, &descr.join(" ; ")); }
+                if step % 3 == 2 || step + 1 == len { check_state(rec, w, &st, with_dom, &dm, &descr.join(" ; ")); }
             }
             rec.nontrivial_case(&format!("{}|{}", with_dom, descr.join("|")));
             rec.count(if with_dom { "config:domains" } else { "config:rbac" });
